@@ -670,3 +670,36 @@ def fam_send(tier, base):
 prop("C29", "send", "every case of MC_SendCases: sizes {0, 1, 2047, 2048, 2049, 4096, 22529, 53248} x targets {one, two, missing, one+missing, duplicated} x engine behaviour of the first target {reads all, refuses, aborts after 1.5 KB} x {Send, SendLargeFile}; non-trivial = cases with an existing target",
      _A_CL[:1] + ["rpc.Vibranium.Send / SendLargeFile are called directly with an in-memory server stream (no network); the fake engine's copy call records bytes, owner and mode; content compared by length and SHA-256 prefix",
                   "a call that has not returned after 8 s (normal: < 50 ms) is a hang"])
+
+
+# =========================================================================== Selfmon: C28
+@family("selfmon")
+def fam_selfmon(tier, base):
+    q = tier == "quick"
+    r = verif.model_check("MC_Selfmon", "MC_Selfmon_small.cfg", timeout=3000)
+    inputs, trace = base + ".in.ndjson", base + ".trace.ndjson"
+    seen = set()
+    with open(inputs, "w") as f:
+        n, gen = _sim_inputs("MC_Selfmon", "MC_Selfmon_sim.cfg", 30 if q else 600, 40, f, seen, keep=40 if q else 1200)
+        # every sequence of 4 (thorough: 6) heartbeats / lapses / agent reports on one node with a running watcher
+        rf = verif.model_check("MC_Selfmon", "MC_Selfmon_focus4.cfg" if q else "MC_Selfmon_focus6.cfg", timeout=3000, workers=1)
+        for x in dict.fromkeys(rf.tagged("INPUT")):
+            if x not in seen:
+                seen.add(x)
+                f.write(x + "\n")
+                n += 1
+    b = verif.build_driver("cluster")
+    verif.run_driver_sharded(b, "TestClusterSelfmon", inputs, trace, shards=12, timeout=7000)
+    os.remove(inputs)
+    viols, tr = verif.validate_trace("Trace_Selfmon", "Trace_Selfmon.cfg", trace)
+    lines = verif.read_lines(trace)
+    cnt = lambda s: sum(1 for ln in lines if s in ln)
+    return dict(trace=trace, viols=viols, states=r.distinct, transitions=r.generated + gen, configs=["MC_Selfmon_small.cfg", "MC_Selfmon_sim.cfg", "Trace_Selfmon.cfg"], window=1,
+                exhaustive=False, traces={"*": len(lines)}, samples={"*": [json.loads(x) for x in lines[:2]]},
+                nontrivial={"C28": sum(1 for ln in lines if '"started":true' in ln and ('"op":"lapse"' in ln or '"op":"expire"' in ln))},
+                notes="model: 2 nodes, environment + watcher (initial scan, lapse handling), exhaustive to 5 environment steps with liveness LapseLeadsToDown under fairness; code: %d simulated histories of 9 steps (heartbeat, delete, expiry, new workload, agent report, watcher start, pause) with the real selfmon.RunNodeStatusWatcher on a real Calcium" % n)
+
+
+prop("C28", "selfmon", "TLC-simulated histories over two real (non-test) nodes with up to 2 workloads each; the watcher is started before or after the lapses; statuses polled for up to 12 s (normal reaction < 0.3 s); non-trivial = histories with a watcher and a lapse",
+     _A_CL[:1] + ["etcd store only: the node-status stream needs store notifications, which the offline redis (miniredis) does not emit", "real nodes have an unreachable engine endpoint; workloads are recorded through the store and reported up by a simulated agent (status with TTL 0)",
+                  "'eventually' = within 12 s of the end of the history"])
